@@ -396,5 +396,41 @@ inline const Pos* find(const std::string& cls, const std::string& field, bool ge
     return nullptr;
 }
 
+// ---- IEEE 802.11-2012 8.4.1.4 Capability Information field: one 16-bit little-endian integer, bit Bn = LSB-0 bit n
+//      (figure 8-38: B0 ESS, B1 IBSS, B2 CF Pollable, B3 CF-Poll Request, B4 Privacy, B5 Short Preamble, B6 PBCC,
+//      B7 Channel Agility, B8 Spectrum Management, B9 QoS, B10 Short Slot Time, B11 APSD, B12 Radio Measurement,
+//      B13 DSSS-OFDM, B14 Delayed Block Ack, B15 Immediate Block Ack).  `name` is libtins' accessor of
+//      Dot11ManagementFrame::capability_information.
+struct CapBit { const char* name; uint8_t bit; };
+inline const std::vector<CapBit>& dot11_capability_bits() {
+    static const std::vector<CapBit> T = {
+        {"ess", 0}, {"ibss", 1}, {"cf_poll", 2}, {"cf_poll_req", 3}, {"privacy", 4}, {"short_preamble", 5}, {"pbcc", 6},
+        {"channel_agility", 7}, {"spectrum_mgmt", 8}, {"qos", 9}, {"sst", 10}, {"apsd", 11}, {"radio_measurement", 12},
+        {"dsss_ofdm", 13}, {"delayed_block_ack", 14}, {"immediate_block_ack", 15},
+    };
+    return T;
+}
+inline int dot11_capability_bit(const std::string& name) {
+    for (const CapBit& c : dot11_capability_bits()) if (name == c.name) return c.bit;
+    return -1;
+}
+// Byte offset of the Capability Information field in the frame (24-byte MAC header without address 4; add
+// dyn_shift(DOT11_AFTER_ADDR4) when ToDS = FromDS = 1).  IEEE 802.11-2012 8.3.3: Beacon (8.3.3.2) and Probe Response
+// (8.3.3.10): Timestamp(8) Beacon interval(2) Capability(2); Association Request (8.3.3.5): Capability(2) Listen
+// interval(2); Association / Reassociation Response (8.3.3.6 / 8.3.3.8): Capability(2) Status code(2) AID(2);
+// Reassociation Request (8.3.3.7): Capability(2) Listen interval(2) Current AP address(6).
+struct CapField { const char* cls; uint16_t byte_off; };
+inline const std::vector<CapField>& dot11_capability_fields() {
+    static const std::vector<CapField> T = {
+        {"Dot11Beacon", 34}, {"Dot11ProbeResponse", 34}, {"Dot11AssocRequest", 24}, {"Dot11AssocResponse", 24},
+        {"Dot11ReAssocRequest", 24}, {"Dot11ReAssocResponse", 24},
+    };
+    return T;
+}
+inline int dot11_capability_offset(const std::string& cls) {
+    for (const CapField& c : dot11_capability_fields()) if (cls == c.cls) return c.byte_off;
+    return -1;
+}
+
 }  // namespace wirepos
 #endif
